@@ -4,16 +4,18 @@ from __future__ import annotations
 from . import bufferrules as B
 
 EXPLANATION = (
-    "Path analysis of the framing loops, for every input and fragmentation at once. C11.PROGRESS: Buffer.process is enumerated with "
-    "_find_message_in_buffer and _cleanup_beginning inlined; every iteration that returns to the loop head must have truncated the buffer "
-    "by a suffix slice whose start has a proven lower bound >= 1 (constant, or find(...)+1 after the not-found return - interval facts are "
-    "carried per path) and must not append; the inner scan loop's position must be find('>', previous position) + 1 (ranking argument). "
-    "C11.GUARD: the consumer is only ever called with the result of IndiMessage.from_string. C11.CONTAIN: with the two parser calls made "
-    "to raise (ParseError / any Exception), no path lets the exception out of process. C11.BOUND: with the threshold enabled every break "
-    "out of the loop follows a failed 'length > threshold' test with no buffer write in between, so at most threshold characters are "
-    "retained. C11.RECOVER: a complete (well-formed) element that the message parser rejects is consumed instead of blocking the head of the "
-    "buffer. C11.NOGROW: the cleanup functions only assign suffixes of the buffer or the empty string; a path that leaves the buffer untouched "
-    "has established that the earliest known tag (or the only '<') is at position 0. C11.AUX: no cached scan state survives a truncation."
+    'Path analysis of the framing loops, for every input and fragmentation at once. C11.PROGRESS: Buffer.process is enumerated with '
+    '_find_message_in_buffer and _cleanup_beginning inlined; every iteration that returns to the loop head must have truncated the buffer by a '
+    'suffix slice whose start has a proven lower bound >= 1 (constant, or find(...)+1 after the not-found return - interval facts are carried per '
+    "path) and must not append; the inner scan loop's position must be find('>', previous position) + 1 (ranking argument). C11.GUARD: the "
+    'consumer is only ever called with the result of IndiMessage.from_string. C11.CONTAIN: with the two parser calls made to raise (ParseError / '
+    'any Exception), no path lets the exception out of process. C11.BOUND: with the threshold enabled every break out of the loop follows a '
+    "failed 'length > threshold' test with no buffer write in between, so at most threshold characters are retained. C11.RECOVER: a complete "
+    '(well-formed) element that the message parser rejects is consumed instead of blocking the head of the buffer. C11.NOGROW: the '
+    'resynchroniser, evaluated on a catalogue of 820 constant buffer contents, leaves everything from the earliest known start tag, else from the '
+    "last '<', else nothing (extended to all inputs where the symbolic provenance analysis recognises the code); every other truncation in "
+    'process() is either the end of a prefix handed to the message parser in the same iteration or the single-character drop under the '
+    'enabled-threshold guard, followed by a resynchronisation. C11.AUX: no cached scan state survives a truncation.'
 )
 NOT_DECIDED = "that junk which does not imitate a protocol element is skipped promptly, and recovery after a corrupt element (both depend on what expat accepts as a prefix)."
 ASSUMPTIONS = [
